@@ -1559,3 +1559,386 @@ theorem RG.prim {st st' : State} (w : WF st) (t : TM st) (x : IX st) (h : RG st)
 
 
 end SigModel.Bus
+
+namespace SigModel.Bus
+open SigModel.Generated.Bus
+
+/-! ### conservation -/
+
+/-- Where message `i` is on its way to listener `l` of subscriber `k`: still in `incoming`, being sent,
+in the channel, being processed with `l` still to be served, or delivered. -/
+def Where (st : State) (k l i : Nat) : Prop :=
+  st.disp ≤ i ∨ (i + 1 = st.disp ∧ k ∈ st.sending) ∨ i ∈ (st.sub k).chan ∨
+  ((st.sub k).cur = some i ∧
+    ((st.sub k).snapped = false ∨ l ∈ (st.sub k).tovisit ∨ (st.sub k).pending = some l)) ∨
+  (∃ r, r ∈ st.recvs ∧ r.l = l ∧ r.i = i)
+
+structure CV (st : State) : Prop where
+  stays_active : ∀ R, R ∈ st.regs → Stays st R → ∃ k, st.active R.s = some k ∧ R.l ∈ (st.sub k).listeners
+  cons : st.dropped = false → ∀ R, R ∈ st.regs → Stays st R → ∀ (i : Nat) (p : PubEv), st.log[i]? = some p →
+    p.s = R.s → R.t < p.t → ∀ k, st.active R.s = some k → Where st k R.l i
+
+theorem CV.init : CV State.init := by
+  constructor <;> simp [State.init]
+
+/-- a change of subscriber `k0` that leaves its pipeline alone -/
+theorem Where.upd_same {st : State} {k0 : Nat} {f : Sub → Sub} {k l i : Nat}
+    (h : Where st k l i) (e1 : (f (st.sub k0)).chan = (st.sub k0).chan) (e2 : (f (st.sub k0)).cur = (st.sub k0).cur)
+    (e3 : (f (st.sub k0)).snapped = (st.sub k0).snapped) (e4 : (f (st.sub k0)).tovisit = (st.sub k0).tovisit)
+    (e5 : (f (st.sub k0)).pending = (st.sub k0).pending) : Where (st.upd k0 f) k l i := by
+  unfold Where at h ⊢
+  simp only [upd_sub, upd_disp, upd_sending, upd_recvs]
+  split
+  · rename_i e; subst e; rw [e1, e2, e3, e4, e5]; exact h
+  · exact h
+
+theorem Where.other {st : State} {k0 : Nat} {f : Sub → Sub} {k l i : Nat}
+    (h : Where st k l i) (hne : k ≠ k0) : Where (st.upd k0 f) k l i := by
+  unfold Where at h ⊢
+  simp only [upd_sub, upd_disp, upd_sending, upd_recvs, if_neg hne]
+  exact h
+
+
+theorem Where.stampReg {st : State} {k l i : Nat} (h : Where st k l i) (l' s' : Nat) :
+    Where (stampReg st l' s') k l i := h
+
+theorem Where.stampUnreg {st : State} {k l i : Nat} (h : Where st k l i) (l' s' : Nat) :
+    Where (stampUnreg st l' s') k l i := h
+
+/-- Transitions that leave the call records, the log and the subscription table alone. -/
+theorem CV.internal {st st' : State} (w : WF st) (h : CV st) (e1 : st'.regs = st.regs) (e2 : st'.unregs = st.unregs)
+    (e3 : st'.active = st.active) (e4 : st'.log = st.log) (e5 : st'.dropped = false → st.dropped = false)
+    (e6 : ∀ k, (st'.sub k).listeners = (st.sub k).listeners)
+    (hW : ∀ (k l i : Nat) (p : PubEv), st'.dropped = false → st.active ((st.sub k).subj) = some k →
+      l ∈ (st.sub k).listeners → st.log[i]? = some p → p.s = (st.sub k).subj → Where st k l i → Where st' k l i) :
+    CV st' := by
+  obtain ⟨h1, h2⟩ := h
+  have hst : ∀ R, Stays st' R ↔ Stays st R := by intro R; simp only [Stays, e2]
+  refine ⟨?_, ?_⟩
+  · intro R hR hS
+    rw [e1] at hR
+    obtain ⟨k, a, b⟩ := h1 R hR ((hst R).mp hS)
+    exact ⟨k, by rw [e3]; exact a, by rw [e6]; exact b⟩
+  · intro hd R hR hS i p hp hps ht k ha
+    rw [e1] at hR; rw [e4] at hp; rw [e3] at ha
+    have hS' := (hst R).mp hS
+    obtain ⟨k', a, b⟩ := h1 R hR hS'
+    rw [ha] at a; cases a
+    have hsubj := (w.act_subj R.s k ha).1
+    exact hW k R.l i p hd (by rw [hsubj]; exact ha) b hp (by rw [hsubj]; exact hps)
+      (h2 (e5 hd) R hR hS' i p hp hps ht k ha)
+
+theorem CV.prim {st st' : State} (w : WF st) (t : TM st) (x : IX st) (h : CV st) (p : Prim st st') : CV st' := by
+  cases p with
+  | dispatch p0 hs hp0 =>
+    refine h.internal w rfl rfl rfl rfl (fun g => g) (fun _ => rfl) ?_
+    intro k l i p _ hact hl hp hps hw
+    have hk := w.act_lt _ k hact
+    have hopen := (w.act_subj _ k hact).2.1
+    unfold Where at hw ⊢
+    simp only
+    rcases hw with a | a | a | a | a
+    · by_cases e : i = st.disp
+      · subst e
+        right; left
+        refine ⟨rfl, ?_⟩
+        rw [hp0] at hp; cases hp
+        simp only [List.mem_filter, List.mem_range, Bool.and_eq_true, beq_iff_eq]
+        refine ⟨hk, ?_, hps.symm⟩
+        cases hatt : (st.sub k).attached with
+        | true => rfl
+        | false => have := (w.subok k hk).detached_closed hatt; rw [hopen] at this; cases this
+      · left; omega
+    · rw [hs] at a; cases a.2
+    · right; right; left; exact a
+    · right; right; right; left; exact a
+    · right; right; right; right; exact a
+  | sendDrop k0 rest hs =>
+    refine ⟨?_, ?_⟩
+    · exact h.stays_active
+    · intro hd; cases hd
+  | sendOk k0 rest hs hlt =>
+    refine h.internal w rfl rfl rfl rfl (fun g => g) ?_ ?_
+    · intro k; simp only [upd_sub]; split <;> rfl
+    · intro k l i p _ hact hl hp hps hw
+      unfold Where at hw ⊢
+      simp only [upd_sub, upd_disp, upd_sending, upd_recvs]
+      rcases hw with a | a | a | a | a
+      · left; exact a
+      · rw [hs] at a
+        by_cases e : k = k0
+        · right; right; left
+          rw [if_pos e]
+          simp only [List.mem_append, List.mem_singleton]
+          right; omega
+        · right; left
+          refine ⟨a.1, ?_⟩
+          have := a.2
+          simp only [List.mem_cons] at this
+          rcases this with g | g
+          · exact absurd g e
+          · exact g
+      · right; right; left
+        split
+        · rename_i e; subst e; simp only [List.mem_append]; left; exact a
+        · exact a
+      · right; right; right; left
+        split
+        · rename_i e; subst e; exact a
+        · exact a
+      · right; right; right; right; exact a
+  | take k0 i0 rest hk0 ha0 hc0 hch =>
+    refine h.internal w rfl rfl rfl rfl (fun g => g) ?_ ?_
+    · intro k; simp only [upd_sub]; split <;> rfl
+    · intro k l i p _ hact hl hp hps hw
+      by_cases e : k = k0
+      · subst e
+        unfold Where at hw ⊢
+        simp only [upd_sub, upd_disp, upd_sending, upd_recvs, if_true]
+        rcases hw with a | a | a | a | a
+        · left; exact a
+        · right; left; exact a
+        · rw [hch] at a
+          simp only [List.mem_cons] at a
+          rcases a with g | g
+          · right; right; right; left
+            exact ⟨by rw [g], Or.inl trivial⟩
+          · right; right; left; exact g
+        · rw [hc0] at a; cases a.1
+        · right; right; right; right; exact a
+      · exact hw.other e
+  | snap k0 i0 hk0 hc0 hs0 =>
+    refine h.internal w rfl rfl rfl rfl (fun g => g) ?_ ?_
+    · intro k; simp only [upd_sub]; split <;> rfl
+    · intro k l i p _ hact hl hp hps hw
+      by_cases e : k = k0
+      · subst e
+        unfold Where at hw ⊢
+        simp only [upd_sub, upd_disp, upd_sending, upd_recvs, if_true]
+        rcases hw with a | a | a | a | a
+        · left; exact a
+        · right; left; exact a
+        · right; right; left; exact a
+        · right; right; right; left
+          exact ⟨a.1, Or.inr (Or.inl hl)⟩
+        · right; right; right; right; exact a
+      · exact hw.other e
+  | pick k0 l0 hk0 hs0 hp0 hl0 =>
+    refine h.internal w rfl rfl rfl rfl (fun g => g) ?_ ?_
+    · intro k; simp only [upd_sub]; split <;> rfl
+    · intro k l i p _ hact hl hp hps hw
+      by_cases e : k = k0
+      · subst e
+        unfold Where at hw ⊢
+        simp only [upd_sub, upd_disp, upd_sending, upd_recvs, if_true]
+        rcases hw with a | a | a | a | a
+        · left; exact a
+        · right; left; exact a
+        · right; right; left; exact a
+        · right; right; right; left
+          refine ⟨a.1, ?_⟩
+          rcases a.2 with g | g | g
+          · rw [hs0] at g; cases g
+          · by_cases e2 : l = l0
+            · subst e2; right; right; simp [hl]
+            · right; left; exact (List.mem_erase_of_ne e2).mpr g
+          · rw [hp0] at g; cases g
+        · right; right; right; right; exact a
+      · exact hw.other e
+  | call k0 l0 i0 hk0 hp0 hc0 =>
+    refine h.internal w rfl rfl rfl rfl (fun g => g) ?_ ?_
+    · intro k; simp only [upd_sub]; split <;> rfl
+    · intro k l i p _ hact hl hp hps hw
+      unfold Where at hw ⊢
+      simp only [upd_sub, upd_disp, upd_sending, upd_recvs]
+      rcases hw with a | a | a | a | a
+      · left; exact a
+      · right; left; exact a
+      · right; right; left
+        split
+        · rename_i e; subst e; exact a
+        · exact a
+      · by_cases e : k = k0
+        · subst e
+          rcases a.2 with g | g | g
+          · right; right; right; left
+            rw [if_pos rfl]; exact ⟨a.1, Or.inl g⟩
+          · right; right; right; left
+            rw [if_pos rfl]; exact ⟨a.1, Or.inr (Or.inl g)⟩
+          · right; right; right; right
+            rw [hp0] at g; cases g
+            have := a.1; rw [hc0] at this; cases this
+            exact ⟨{ l := l0, i := i0, t := st.clk, k := k }, by simp, rfl, rfl⟩
+        · right; right; right; left
+          rw [if_neg e]; exact a
+      · right; right; right; right
+        obtain ⟨r, hr, b, c⟩ := a
+        exact ⟨r, by simp [hr], b, c⟩
+  | finish k0 i0 hk0 hc0 hs0 ht0 hp0 =>
+    refine h.internal w rfl rfl rfl rfl (fun g => g) ?_ ?_
+    · intro k; simp only [upd_sub]; split <;> rfl
+    · intro k l i p _ hact hl hp hps hw
+      by_cases e : k = k0
+      · subst e
+        unfold Where at hw ⊢
+        simp only [upd_sub, upd_disp, upd_sending, upd_recvs, if_true]
+        rcases hw with a | a | a | a | a
+        · left; exact a
+        · right; left; exact a
+        · right; right; left; exact a
+        · exfalso
+          rcases a.2 with g | g | g
+          · rw [hs0] at g; cases g
+          · rw [ht0] at g; cases g
+          · rw [hp0] at g; cases g
+        · right; right; right; right; exact a
+      · exact hw.other e
+  | exit k0 hk0 ha0 hcl0 hc0 =>
+    refine h.internal w rfl rfl rfl rfl (fun g => g) ?_ ?_
+    · intro k; simp only [upd_sub]; split <;> rfl
+    · intro k l i p _ hact hl hp hps hw
+      exact hw.upd_same rfl rfl rfl rfl rfl
+  | publish s0 =>
+    obtain ⟨h1, h2⟩ := h
+    refine ⟨h1, ?_⟩
+    intro hd R hR hS i p hp hps ht k ha
+    simp only [publish] at hp
+    rcases Nat.lt_or_ge i st.log.length with g | g
+    · rw [List.getElem?_append_left g] at hp
+      exact h2 hd R hR hS i p hp hps ht k ha
+    · left
+      have := w.disp_le
+      show st.disp ≤ i
+      omega
+  | regOld l s k0 ha0 =>
+    have hk0 := w.act_lt s k0 ha0
+    obtain ⟨h1, h2⟩ := h
+    have hls : ∀ k l', l' ∈ (st.sub k).listeners → l' ∈ ((regOld st l k0).sub k).listeners := by
+      intro k l' hl'
+      simp only [regOld, upd_sub]
+      split
+      · rename_i e; subst e
+        split
+        · exact hl'
+        · simp only [List.mem_append]; left; exact hl'
+      · exact hl'
+    refine ⟨?_, ?_⟩
+    · intro R hR hS
+      simp only [stampReg, regOld, upd_regs, List.mem_append, List.mem_singleton] at hR
+      rcases hR with hR | rfl
+      · obtain ⟨k, a, b⟩ := h1 R hR hS
+        exact ⟨k, a, hls k R.l b⟩
+      · refine ⟨k0, ha0, ?_⟩
+        simp only [stampReg, regOld, upd_sub, if_true]
+        split
+        · assumption
+        · simp
+    · intro hd R hR hS i p hp hps ht k ha
+      simp only [stampReg, regOld, upd_regs, List.mem_append, List.mem_singleton] at hR
+      rcases hR with hR | rfl
+      · have hw := h2 hd R hR hS i p hp hps ht k ha
+        refine Where.stampReg ?_ l s
+        unfold regOld
+        refine (Where.upd_same hw ?_ ?_ ?_ ?_ ?_) <;> (split <;> rfl)
+      · have := t.log_lt p (List.mem_of_getElem? hp)
+        simp only [regOld, upd_clk] at ht
+        omega
+  | regNew l s ha0 =>
+    obtain ⟨h1, h2⟩ := h
+    refine ⟨?_, ?_⟩
+    · intro R hR hS
+      simp only [stampReg, regNew, List.mem_append, List.mem_singleton] at hR ⊢
+      rcases hR with hR | rfl
+      · obtain ⟨k, a, b⟩ := h1 R hR hS
+        have hne : R.s ≠ s := by intro e; rw [e, ha0] at a; cases a
+        have hk := w.act_lt _ k a
+        refine ⟨k, by rw [if_neg hne]; exact a, ?_⟩
+        rw [if_neg (Nat.ne_of_lt hk)]; exact b
+      · exact ⟨st.nsubs, by simp, by simp⟩
+    · intro hd R hR hS i p hp hps ht k ha
+      simp only [stampReg, regNew, List.mem_append, List.mem_singleton] at hR ha
+      rcases hR with hR | rfl
+      · obtain ⟨k', a, b⟩ := h1 R hR hS
+        have hne : R.s ≠ s := by intro e; rw [e, ha0] at a; cases a
+        rw [if_neg hne] at ha
+        have hk := w.act_lt _ k ha
+        have hw := h2 hd R hR hS i p hp hps ht k ha
+        unfold Where at hw ⊢
+        simp only [stampReg, regNew, if_neg (Nat.ne_of_lt hk)]
+        exact hw
+      · have := t.log_lt p (List.mem_of_getElem? hp)
+        simp only [regNew] at ht
+        omega
+  | unregNone l s ha0 =>
+    obtain ⟨h1, h2⟩ := h
+    have hst : ∀ R, Stays (stampUnreg st l s) R → Stays st R := by
+      intro R hS U hU; exact hS U (by simp [stampUnreg, hU])
+    exact ⟨fun R hR hS => h1 R hR (hst R hS), fun hd R hR hS => h2 hd R hR (hst R hS)⟩
+  | unregLast l s k0 ha0 he =>
+    have hk0 := w.act_lt s k0 ha0
+    have hact0 := w.act_subj s k0 ha0
+    obtain ⟨h1, h2⟩ := h
+    have hst : ∀ R, Stays (stampUnreg (unregLast st s k0) l s) R → Stays st R := by
+      intro R hS U hU; exact hS U (by simp [stampUnreg, unregLast, hU])
+    -- a registration that stays is on another subject
+    have hother : ∀ R, R ∈ st.regs → Stays (stampUnreg (unregLast st s k0) l s) R → R.s ≠ s := by
+      intro R hR hS e
+      obtain ⟨k, a, b⟩ := h1 R hR (hst R hS)
+      rw [e, ha0] at a; cases a
+      have hne : R.l ≠ l := by
+        intro e2
+        have h3 := hS { l := l, s := s, t := st.clk } (by simp [stampUnreg, unregLast]) e2.symm e.symm
+        have := t.regs_lt R hR
+        simp only at h3
+        omega
+      have : R.l ∈ (st.sub k0).listeners.erase l := (List.mem_erase_of_ne hne).mpr b
+      rw [he] at this; cases this
+    refine ⟨?_, ?_⟩
+    · intro R hR hS
+      have hne := hother R hR hS
+      obtain ⟨k, a, b⟩ := h1 R hR (hst R hS)
+      have hkne : k ≠ k0 := by
+        intro e; subst e
+        exact hne ((w.act_subj _ k a).1.symm.trans hact0.1)
+      refine ⟨k, ?_, ?_⟩
+      · simp only [stampUnreg, unregLast, if_neg hne]; exact a
+      · simp only [stampUnreg, unregLast, upd_sub, if_neg hkne]; exact b
+    · intro hd R hR hS i p hp hps ht k ha
+      have hne := hother R hR hS
+      simp only [stampUnreg, unregLast, if_neg hne] at ha
+      have hkne : k ≠ k0 := by
+        intro e; subst e
+        exact hne ((w.act_subj _ k ha).1.symm.trans hact0.1)
+      have hw := h2 hd R hR (hst R hS) i p hp hps ht k ha
+      unfold Where at hw ⊢
+      simp only [stampUnreg, unregLast, upd_sub, upd_disp, upd_sending, upd_recvs, if_neg hkne]
+      exact hw
+  | unregSome l s k0 ha0 he =>
+    have hk0 := w.act_lt s k0 ha0
+    have hact0 := w.act_subj s k0 ha0
+    obtain ⟨h1, h2⟩ := h
+    have hst : ∀ R, Stays (stampUnreg (unregSome st l k0) l s) R → Stays st R := by
+      intro R hS U hU; exact hS U (by simp [stampUnreg, unregSome, hU])
+    refine ⟨?_, ?_⟩
+    · intro R hR hS
+      obtain ⟨k, a, b⟩ := h1 R hR (hst R hS)
+      refine ⟨k, a, ?_⟩
+      simp only [stampUnreg, unregSome, upd_sub]
+      split
+      · rename_i e; subst e
+        have es : R.s = s := (w.act_subj _ k a).1.symm.trans hact0.1
+        have hne : R.l ≠ l := by
+          intro e2
+          have h3 := hS { l := l, s := s, t := st.clk } (by simp [stampUnreg, unregSome]) e2.symm es.symm
+          have := t.regs_lt R hR
+          simp only at h3
+          omega
+        exact (List.mem_erase_of_ne hne).mpr b
+      · exact b
+    · intro hd R hR hS i p hp hps ht k ha
+      have hw := h2 hd R hR (hst R hS) i p hp hps ht k ha
+      refine Where.stampUnreg ?_ l s
+      exact hw.upd_same rfl rfl rfl rfl rfl
+
+
+end SigModel.Bus
